@@ -35,6 +35,7 @@ STUBS = [
     "FakeSocket / StubSelector / VirtualClock (props/syncenv.py) with the contracts listed there",
     "StubLock: threading.Lock look-alike; a contended blocking acquire returns after l <= timeout ticks (failure only after the full timeout)",
     "TCPNetworkClient is built on the FakeSocket with its transport's selector_factory and its two locks replaced by the stubs (environment injection only)",
+    "UDPNetworkClient likewise on FakeDatagramSocket (FIFO of whole datagrams; would-block results and selector waits are solver variables; the datagram may also never arrive)",
 ]
 ASSUMPTIONS = [
     "processing time between waits is 0 ticks ('plus bounded processing time' in the statement is modelled as zero, so the bounds are exact)",
@@ -42,7 +43,7 @@ ASSUMPTIONS = [
     "at most K would-block results per call",
 ]
 BOUNDS = {"quick": "T in 0..3 ticks, retry_interval in {1, 2, inf}, <= 2 would-blocks per call, frames of <= 3 bytes drip-fed", "thorough": "T up to 5, <= 3 would-blocks"}
-OUTSIDE = "real clocks and OS scheduling latency, SSLStreamTransport handshake, UDP client (same _retry code), loop-head induction for unboundedly many wake-ups"
+OUTSIDE = "real clocks and OS scheduling latency, SSLStreamTransport (OpenSSL), more would-blocks per call than the bound in the SX shards (the KS shard removes that bound for _retry / send_all / the sendmsg loop only)"
 
 
 class StubLock:
@@ -271,6 +272,79 @@ def client_op(op: str, T: int, interval, frame: int = 2, path: str = "copy", max
     return scenario
 
 
+def udp_client_op(op: str, T: int, interval, max_eagain: int = 1, packets: int = 1):
+    """The real UDPNetworkClient (SocketDatagramTransport._retry, DatagramEndpoint, lock_with_timeout, iterator) over a scripted
+    SOCK_DGRAM socket object. op: recv | send | iter.  For recv the datagram may also never arrive (finite T only)."""
+    import easynetwork.clients.udp as udp_mod
+    from easynetwork.protocol import DatagramProtocol
+
+    from .syncenv import FakeDatagramSocket
+
+    def scenario(S):
+        env = Env(S, fuel=40, max_eagain=max_eagain, cap=8, elapsed_max=(T if T != INF else 2) + 1)
+        payloads = []
+        for i in range(packets):
+            p = S.bytes(1, f"p{i}_")
+            S.assume(p.find(b"\n") < 0)
+            S.assume(p[0] != L.MARK)
+            payloads.append(p)
+        contended = S.bool("contended")
+        lock = StubLock(env, contended)
+        sock = FakeDatagramSocket(env)
+        arrives = True
+        if op == "recv" and T != INF:
+            arrives = S.bool("arrives")
+        if op != "send" and arrives:
+            for p in payloads:
+                sock.queue.append(p)  # one-shot mode: a datagram carries the bare payload
+        saved = udp_mod.SocketDatagramTransport
+        try:
+            udp_mod.SocketDatagramTransport = lambda s, retry_interval, **kw: saved(s, retry_interval, selector_factory=lambda: StubSelector(env), **kw)
+            client = udp_mod.UDPNetworkClient(sock, DatagramProtocol(L.RawSep(b"\n", limit=8)), retry_interval=interval)
+            client._UDPNetworkClient__receive_lock = _LockBox(lock)
+            client._UDPNetworkClient__send_lock = _LockBox(lock)
+            got = []
+            with patched_clock(env):
+                if op == "recv":
+                    outcome = _run(lambda: got.append(client.recv_packet(timeout=T)))
+                elif op == "send":
+                    outcome = _run(lambda: client.send_packet(payloads[0], timeout=T))
+                else:
+
+                    def it():
+                        for pkt in client.iter_received_packets(timeout=T):
+                            got.append(pkt)
+
+                    outcome = _run(it)
+            wire = list(sock.queue)
+        finally:
+            udp_mod.SocketDatagramTransport = saved
+            lock.contended = False
+            sock.really_close()
+        extra = True
+        if op == "recv":
+            if outcome == "returned":
+                extra = arrives and got[0] == payloads[0]
+            elif not arrives:
+                extra = outcome == "timeout"
+        if op == "send":
+            extra = (len(wire) == 1 and wire[0] == payloads[0]) if outcome == "returned" else (len(wire) == 0)
+        if op == "iter":
+            extra = outcome == "returned" and len(got) <= packets
+            if extra:
+                for g, p in zip(got, payloads):
+                    if not (g == p):
+                        extra = False
+        ok, elapsed, tags = _verdict(env, T, outcome, 0, stub_lock=lock, extra_ok=extra)
+        if op == "iter" and len(got) < packets:
+            if T != INF and not (elapsed == T):
+                ok = False
+            tags = tags + ("timed-out",)
+        return Outcome(ok=ok, skeleton=(outcome, elapsed, len(got)), tags=tags, detail={"outcome": outcome, "elapsed": elapsed, "T": T, "selects": env.selects, "contended": contended, "received": len(got), "arrives": arrives})
+
+    return scenario
+
+
 def ks_replay(kernel: str, T, R, log: list):
     """Concrete replay of a failed KS obligation against the REAL function: the iteration found by the solver is played from a
     fresh start (nothing waited yet, so the loop-head state is the initial one), then the environment behaves adversarially within
@@ -425,6 +499,8 @@ def shards(tier: str):
             add(f"recv-eof/copy/F1/T{T}/i{ivn}", "recv_budget", dict(frame=1, T=T, interval=iv, path="copy", bufsize=2, max_eagain=1, eof=True), cost=10)
             for op in ("recv", "send", "iter"):
                 add(f"client/{op}/T{T}/i{ivn}", "client_op", dict(op=op, T=T, interval=iv, frame=1, path="copy", max_eagain=1, packets=2 if op == "iter" else 1), cost=20 * (T + 1) ** 2)
+            for op in ("recv", "send", "iter"):
+                add(f"udpclient/{op}/T{T}/i{ivn}", "udp_client_op", dict(op=op, T=T, interval=iv, max_eagain=1, packets=2 if op == "iter" else 1), cost=20 * (T + 1) ** 2)
             if not quick:
                 add(f"client/recv-buf/T{T}/i{ivn}", "client_op", dict(op="recv", T=T, interval=iv, frame=2, path="buf", max_eagain=2), cost=20 * (T + 1) ** 2)
     # KS engine: loop-head induction for the timeout book-keeping loops (unbounded number of wake-ups / partial writes)
